@@ -491,7 +491,7 @@ class FunctionParser(BaseParser):
             if field:
                 required = field.no_default
             else:
-                required = v.default != v.empty
+                required = v.default == v.empty
 
             if required:
                 if i in self.exclude_indexes:
